@@ -282,6 +282,14 @@ def go_test(pkg, run, env=None, timeout=900, race=False, wd=None, tags="verif", 
         vf = os.path.join(os.path.dirname(stallf), "stall_verdict.json")
         if os.path.exists(vf):
             v = json.load(open(vf))     # the driver had observed this before the scenario stopped making progress
+            kf = set()
+            kpath = os.path.join(VERIF, "known_findings.json")
+            if os.path.exists(kpath):
+                kf = {f["signature"] for f in json.load(open(kpath)).get("findings", []) if f.get("status") == "open"}
+            if v["sig"] in kf:
+                # what the driver had seen is a listed finding: it says nothing about why this scenario stopped - the stall is
+                # judged on its own (a listed finding never hides a different failure)
+                raise classify_stall(open(stallf, errors="replace").read(), pkg, run)
             raise ClientStall(v["sig"], v["desc"] + "\n(and then a scenario never ended - goroutines that spin or never finish: " +
                               open(stallf, errors="replace").readline().strip()[:160] + ")")
         raise classify_stall(open(stallf, errors="replace").read(), pkg, run)
